@@ -13,6 +13,7 @@ import Model.Proto.Rep
 import Model.Proto.Mesh
 import Model.Proto.Surveyor
 import Model.Proto.Req
+import Model.Proto.Xreq
 import Model.Core
 import Model.Handshaker
 import Model.AcceptQ
@@ -121,6 +122,7 @@ structure State where
   mesh : List Mesh.State := [Mesh.init .bus Generated.hop_xstar_drop]
   surv : List Surveyor.State := [Surveyor.init]
   req : List Req.State := [Req.init]
+  xreq : List Xreq.State := [Xreq.init]
   core : List Core.State := [Core.init]
   hs : List Handshaker.State := [Handshaker.init]
   wsl : List AcceptQ.State := [AcceptQ.init]
@@ -138,6 +140,7 @@ def step (s : State) (tag : String) (args : List String) (o : String) : Option (
     | "m.pull" => some ({ s with pull := [Pull.init], stuck := false }, true, "-", "new")
     | "m.surv" => some ({ s with surv := [Surveyor.init], stuck := false }, true, "-", "new")
     | "m.req" => some ({ s with req := [Req.init], stuck := false }, true, "-", "new")
+    | "m.xreq" => some ({ s with xreq := [Xreq.init], stuck := false }, true, "-", "new")
     | "m.core" => some ({ s with core := [Core.init], stuck := false }, true, "-", "new")
     | "m.ledger" => some ({ s with ledger := [{}], stuck := false }, true, "-", "new")
     | "m.hs" => some ({ s with hs := [Handshaker.init], stuck := false }, true, "-", "new")
@@ -183,6 +186,9 @@ def step (s : State) (tag : String) (args : List String) (o : String) : Option (
   | "m.surv" =>
     let (cs, exp) := advance s.surv Surveyor.step args o
     if cs.isEmpty then some ({ s with stuck := true }, false, exp, opName) else some ({ s with surv := cs }, true, o, opName)
+  | "m.xreq" =>
+    let (cs, exp) := advance s.xreq Xreq.step args o
+    if cs.isEmpty then some ({ s with stuck := true }, false, exp, opName) else some ({ s with xreq := cs }, true, o, opName)
   | "m.req" =>
     let (cs, exp) := advance s.req Req.step args o
     if cs.isEmpty then some ({ s with stuck := true }, false, exp, opName) else some ({ s with req := cs }, true, o, opName)
